@@ -107,6 +107,7 @@ def replay(call):
         if _key(r1) != _key(r2):
             return dict(fails=True, detail='%s (probe #%d): the second call with the same argument objects returns %s, the first %s' % (fname, k, str(_key(r2))[:300], str(_key(r1))[:300]))
         # altering the first result must not change what an equal later call returns (no kept state handed out)
+        k2 = _key(r2)
         if isinstance(r1, list) and r1:
             try:
                 r1.append('!probe'); r1[0] = '!probe'
@@ -114,9 +115,9 @@ def replay(call):
                 pass
             try:
                 r3 = fn(*args, **kwargs)
-                if _key(r3) != _key(r2):
+                if _key(r3) != k2:
                     return dict(fails=True, detail='%s (probe #%d): after the caller altered the first result, an equal call returns %s instead of %s' % (
-                        fname, k, str(_key(r3))[:300], str(_key(r2))[:300]))
+                        fname, k, str(_key(r3))[:300], str(k2)[:300]))
             except Exception as e:  # noqa
                 return dict(fails=True, detail='%s (probe #%d): after the caller altered the first result, an equal call raises %r' % (fname, k, e))
     return dict(fails=False, detail='%d native probes of %s left the arguments unchanged and repeatable' % (n, fname))
